@@ -1251,4 +1251,29 @@ example :
       (fun _ _ _ => none) [0, 0, 0, 0] 2 false [] [])
       = some ([([5, 5], 0#32, false)], [some "boom"]) := by decide +kernel
 
+/-- **Transfer of `C01.processSegments_read_sizes_irrelevant` to the translated code**: for every
+process function, every reader script `r` (failing or not) and ANY other caps list `caps'` (other
+chunk sizes, runs of zero-length reads of any length anywhere), the TRANSLATED `processSegments`
+logs exactly the same calls and the same close error on `{ r with caps := caps' }` as on `r`.  A
+guard that gives up after a number of consecutive `(0, nil)` reads (seeded change C01-r6m2) falsifies
+this: the proof of `processSegments_code_eq_model_enc` no longer goes through on the regenerated
+translation. -/
+theorem processSegments_code_read_sizes_irrelevant (fn : ProcFn)
+    (segSize : Nat) (hs : 0 < segSize) (buf0 : List UInt8)
+    (hbuf : (segSize : Int) + 1 ≤ lenI buf0) (hlen : lenI buf0 ≤ maxI64)
+    (r : Reader) (caps' : List Nat) (fuel fuel' : Nat)
+    (hfuel : r.stream.length + r.measure + 3 ≤ fuel)
+    (hfuel' : r.stream.length + ({ r with caps := caps' } : Reader).measure + 3 ≤ fuel') :
+    ∃ r1 r2 log,
+      Kit.Generated.CodeC01.processSegments fuel rRead rData rStep (pFn fn) buf0 (segSize : Int) r [] []
+        = .ok (r1, log) ∧
+      Kit.Generated.CodeC01.processSegments fuel' rRead rData rStep (pFn fn) buf0 (segSize : Int)
+          { r with caps := caps' } [] []
+        = .ok (r2, log) := by
+  obtain ⟨r1, h1⟩ := processSegments_code_eq_model_gen fn segSize hs buf0 hbuf hlen r fuel hfuel
+  obtain ⟨r2, h2⟩ := processSegments_code_eq_model_gen fn segSize hs buf0 hbuf hlen
+    { r with caps := caps' } fuel' (by simpa [Reader.stream] using hfuel')
+  rw [C01.processSegments_read_sizes_irrelevant segSize (2 ^ 32 - 1) hs fn r caps'] at h2
+  exact ⟨r1, r2, _, h1, h2⟩
+
 end Kit.Enc.Code
